@@ -35,3 +35,9 @@ CLAIMED['C05'] = ('6/C05', 'Bounded-exhaustive symbolic fault injection with a d
                   'program runs on the faulted object and on a freshly built twin and the callback traces, values, constant flags and Event '
                   'state must coincide; applied-before-rejection changes must be announced by the raise.',
                   'symbolic execution (CrossHair+z3) with symbolic fault kind/position, differential comparison against a fresh twin object')
+CLAIMED['C02'] = ('6/C02', 'Bounded-exhaustive symbolic check: after a symbolic prefix of <=2 successful operations (plain set, link to a source '
+                  'Parameter/bind/rx, update) one rejected attempt of symbolic kind (invalid plain value, invalid-valued reference, constant, '
+                  'readonly) through a symbolic route (instance, single-key update, class) with symbolic values; a deep snapshot (values, refs, '
+                  'watcher tables of every object, batching state, Parameter slots, dynamic-generator state) and the event log are compared '
+                  'before/after, and the old link must keep driving the parameter while the attempted one must not.',
+                  'symbolic execution (CrossHair+z3) of Parameter.__set__ with symbolic history and rejected value; snapshot comparison')
